@@ -274,3 +274,81 @@ func lCacheTransparency(cases []LCase, obsOf func(i int) *LObs, meta *Meta, max 
 		}
 	}
 }
+
+// directed documents outside the store model (Go side): an internal reference whose fragment is
+// percent-encoded designates the component of the decoded name; a callback that registers itself
+// again is a reference cycle like any other and is resolved
+func lDirectedExtras(meta *Meta) {
+	viol := func(sig string, c any, detail string) {
+		meta.Histogram["oracle:"+sig]++
+		meta.GoViolation = append(meta.GoViolation, map[string]any{"signature": sig, "cases": []any{c}, "go_observation": detail, "judgement": sig + ": " + detail})
+	}
+	// ---- percent-encoded fragments ----
+	for _, tc := range []struct{ name, spelled, decoy string }{{"My Type", "My%20Type", "My%20Type"}, {"a{b}", "a%7Bb%7D", "a%7Bb%7D"}, {"é", "%C3%A9", "%C3%A9"}, {"Plain", "Plain", "Pl%61in"}} {
+		for _, withDecoy := range []bool{false, true} {
+			schemas := map[string]any{tc.name: jobj("type", "string", "description", "id1"), "R": jobj("$ref", "#/components/schemas/"+tc.spelled)}
+			if withDecoy && tc.decoy != tc.name {
+				schemas[tc.decoy] = jobj("type", "integer", "description", "id2")
+			}
+			d := jobj("openapi", "3.0.3", "info", jobj("title", "t", "version", "1"), "paths", jobj(), "components", jobj("schemas", schemas))
+			b, _ := json.Marshal(d)
+			meta.Histogram["directed extras"]++
+			desc := map[string]any{"document": d}
+			var doc *openapi3.T
+			var err error
+			if p := catchPanic(func() { doc, err = openapi3.NewLoader().LoadFromData(b) }); p != nil {
+				viol("extras:panic", desc, fmt.Sprint(p))
+				continue
+			}
+			if err != nil {
+				viol("extras:percent-encoded-fragment-does-not-load", desc, err.Error())
+				continue
+			}
+			r := doc.Components.Schemas["R"]
+			if r == nil || r.Value == nil || r.Value.Description != "id1" {
+				got := "unresolved"
+				if r != nil && r.Value != nil {
+					got = r.Value.Description
+				}
+				viol("extras:percent-encoded-fragment-designates-another-object", desc, fmt.Sprintf("#/components/schemas/%s resolved to %s, the component named %q is id1", tc.spelled, got, tc.name))
+			}
+		}
+	}
+	// ---- a callback whose operation registers the same callback again ----
+	for _, nested := range []bool{false, true} {
+		again := jobj("$ref", "#/components/callbacks/Event")
+		opCallbacks := jobj("again", again)
+		if nested {
+			opCallbacks = jobj("again", again, "other", jobj("{$request.body#/u}", jobj("post", jobj("responses", jobj("200", jobj("description", "ok")), "callbacks", jobj("deep", jobj("$ref", "#/components/callbacks/Event"))))))
+		}
+		d := jobj("openapi", "3.0.3", "info", jobj("title", "t", "version", "1"), "paths", jobj(),
+			"components", jobj("callbacks", jobj("Event", jobj("{$request.body#/url}", jobj("post", jobj("responses", jobj("200", jobj("description", "ok")), "callbacks", opCallbacks))))))
+		b, _ := json.Marshal(d)
+		meta.Histogram["directed extras"]++
+		desc := map[string]any{"document": d}
+		var doc *openapi3.T
+		var err error
+		if p := catchPanic(func() { doc, err = openapi3.NewLoader().LoadFromData(b) }); p != nil {
+			viol("extras:panic", desc, fmt.Sprint(p))
+			continue
+		}
+		if err != nil {
+			continue // the property lets a load fail; it does not let it succeed with the reference unresolved
+		}
+		ev := doc.Components.Callbacks["Event"]
+		if ev == nil || ev.Value == nil {
+			viol("extras:callback-cycle-left-unresolved", desc, "components.callbacks.Event has no value")
+			continue
+		}
+		for _, item := range ev.Value.Map() {
+			if item.Post == nil {
+				continue
+			}
+			for name, cb := range item.Post.Callbacks {
+				if cb.Ref != "" && cb.Value == nil {
+					viol("extras:callback-cycle-left-unresolved", desc, "the operation's callback "+name+" ("+cb.Ref+") has no value although the document loaded")
+				}
+			}
+		}
+	}
+}
